@@ -645,6 +645,9 @@ func TestC09Values(t *testing.T) {
 	}
 	readersLeaveRecords(run, bus, mem)
 	retainingStore(run)
+	if run.Shard == 0 {
+		existingFile(run)
+	}
 }
 
 // retaining is a write-behind store: Append queues the *Event it is handed (the interface says
